@@ -19,6 +19,11 @@ mod hist;
 mod wf;
 mod c17x;
 mod props;
+mod c16;
+mod c12;
+mod c15;
+mod c14;
+mod c13;
 
 use std::collections::BTreeMap;
 use std::time::Instant;
@@ -76,6 +81,15 @@ fn dispatch(args: &Args) -> Report {
   match args.property.as_str() {
     "C10" => graphmon::run("C10", &args.tier, args.seed, replay),
     "C11" => graphmon::run("C11", &args.tier, args.seed, replay),
+    "C12" => c12::run(&args.tier, args.seed, if args.get("sub") == Some("pairs") { args.get_u64("case") } else { None }),
+    "C13" => c13::run(&args.tier, args.seed, if args.get("sub") == Some("files") { args.get_u64("case") } else { None }),
+    "C14" => c14::run(&args.tier, args.seed, if args.get("sub") == Some("map") { args.get_u64("case") } else { None }),
+    "C15" => c15::run(&args.tier, args.seed, if args.get("sub") == Some("identity") { args.get_u64("case") } else { None }),
+    "C16" => {
+      let child = match (args.get_u64("child_from"), args.get_u64("child_to")) { (Some(a), Some(b)) => Some((a, b)), _ => None };
+      let rp = if args.get("sub") == Some("determinism") { args.get_u64("case") } else { None };
+      c16::run(&args.tier, args.seed, rp, child)
+    }
     _ => props::run(args),
   }
 }
